@@ -70,7 +70,9 @@ let handle kind a =
   | "idx" | "qry" when String.length a.(5) > 0 && a.(5).[0] = '!' -> None
   | "idx" ->
       let f = parse_file a.(5) (parse_recs a.(3)) in
-      (match index (n_of_dec a.(4)) f with
+      (* cram::fs::index on the written file: contexts as the writer stores them, the record scan
+         of multi-reference slices as the switch index_span_repaired says *)
+      (match index_real (n_of_dec a.(4)) (single_file f) with
        | Ok es -> Some ("I=" ^ (if es = [] then "_" else String.concat ";" (List.map fmt_entry es)))
        | e -> Some ("I=" ^ fmt_res e))
   | "qry" ->
@@ -78,7 +80,7 @@ let handle kind a =
       let es = index_core (n_of_dec a.(4)) f in
       (* the file as containers of one slice each: the query is Multi.query_m (slice selected
          by the entry's landmark) in every compared case *)
-      let mf = single_file f in
+      let mf = buf_file (single_file f) in
       let nrefs = n_of_int (List.length (split_on ',' a.(1))) in
       let regions = if a.(6) = "_" then [] else split_on ';' a.(6) in
       let ans = List.map (fun t ->
@@ -92,7 +94,7 @@ let handle kind a =
       Some ("Q=" ^ (if ans = [] then "_" else String.concat ";" ans))
   | "midx" ->
       let f = parse_mfile a.(6) (parse_recs a.(3)) in
-      (match index_m (n_of_dec a.(4)) f with
+      (match index_real (n_of_dec a.(4)) f with
        | Ok es -> Some ("I=" ^ (if es = [] then "_" else String.concat ";" (List.map fmt_entry es)))
        | e -> Some ("I=" ^ fmt_res e))
   | "mqry" ->
@@ -104,7 +106,7 @@ let handle kind a =
            let ans = List.map (fun t ->
              match split_on ':' t with
              | [r; lo; hi] ->
-                 (match query_region_m nrefs es f (n_of_dec r) (opt lo) (opt hi) with
+                 (match query_region_buf nrefs es f (n_of_dec r) (opt lo) (opt hi) with
                   | Ok l -> fmt_names l
                   | e -> fmt_res e)
              | _ -> failwith "region") regions in
@@ -121,7 +123,7 @@ let handle kind a =
            let ans = List.map (fun t ->
              match split_on ':' t with
              | [r; lo; hi] ->
-                 (match query_region_m nrefs es f (n_of_dec r) (opt lo) (opt hi) with
+                 (match query_region_buf nrefs es f (n_of_dec r) (opt lo) (opt hi) with
                   | Ok l -> fmt_names l
                   | e -> fmt_res e)
              | _ -> failwith "region") regions in
@@ -136,7 +138,7 @@ let handle kind a =
            let ans = List.map (fun t ->
              match split_on ':' t with
              | [r; lo; hi] ->
-                 (match query_via_file nrefs es f (n_of_dec r) (opt lo) (opt hi) with
+                 (match query_via_file nrefs es (buf_file f) (n_of_dec r) (opt lo) (opt hi) with
                   | Some (Ok l) -> fmt_names l
                   | Some e -> fmt_res e
                   | None -> "ReadErr")
@@ -171,7 +173,8 @@ let handle kind a =
   | "aq" ->
       (* 0-6 base (layout of the undamaged file), 7 mutation, 8 entries, 9 regions, 10 rmode,
          11 pend, 12 sizes, 13 seeks, 14 chunk, 15 sync script, 16 file bytes *)
-      let f = parse_mfile a.(6) (parse_recs a.(3)) in
+      (* the layout tells which records a slice holds: as the reader converts them *)
+      let f = buf_file (parse_mfile a.(6) (parse_recs a.(3))) in
       let file = bytes_of_hex a.(16) in
       let es = if a.(8) = "_" then [] else List.map (fun t ->
         match split_on ',' t with
